@@ -530,6 +530,13 @@ def ill_typed_edits(src, sites, decl_info, rng, per_class=3):
         a = list(m["args"])
         a[k] = wrong
         out.append(("arg-type", _replace_site(src, i, ", ".join(a))))
+    # a constructor of another (monomorphic) data type where a data value of type T is expected
+    for i in pick("args", lambda m: any(c == "prd" and t in decl_info["other_ctor"] for c, t in zip(m["chis"], m["types"]))):
+        m = sites[i]
+        k = rng.choice([j for j, (c, t) in enumerate(zip(m["chis"], m["types"])) if c == "prd" and t in decl_info["other_ctor"]])
+        a = list(m["args"])
+        a[k] = decl_info["other_ctor"][m["types"][k]]
+        out.append(("constructor-of-other-type", _replace_site(src, i, ", ".join(a))))
     for i in pick("args", lambda m: any(c == "cns" for c in m["chis"])):
         m = sites[i]
         k = rng.choice([j for j, c in enumerate(m["chis"]) if c == "cns"])
@@ -610,7 +617,9 @@ def generate_marked(seed, n, **kw):
         except RecursionError:
             continue
         nullary = next(c for d in g.data.values() for c, fs in d["ctors"] if not fs and not d["params"])
-        info = {"nullary_ctor": nullary, "has_D0": "D0" in g.data}
+        mono = {n: next(c for c, fs in d["ctors"] if not fs) for n, d in g.data.items() if not d["params"] and any(not fs for c, fs in d["ctors"])}
+        other = {t: next(c for u, c in mono.items() if u != t) for t in mono if len(mono) >= 2}
+        info = {"nullary_ctor": nullary, "has_D0": "D0" in g.data, "other_ctor": other}
         muts = ill_typed_edits(src, g.sites, info, random.Random((seed << 20) + i + 7))
         res.append(("t%d_%d" % (seed, i), strip_marks(src), muts))
     return res
